@@ -17,6 +17,7 @@
 #include <etl/chrono.hpp>
 #include <etl/cmath.hpp>
 #include <etl/cstring.hpp>
+#include <etl/cwchar.hpp>
 #include <etl/numeric.hpp>
 #include <etl/string.hpp>
 #include <etl/string_view.hpp>
@@ -252,7 +253,8 @@ constexpr auto to_b(F x) -> fbits_t<F>
 template <typename F>
 constexpr bool lrint_dom(F x)
 {
-    return x > static_cast<F>(-9223372036854775808.0) && x < static_cast<F>(9223372036854775808.0);
+    // -2^63 itself converts (it is a value of every floating-point type), 2^63 does not
+    return x >= static_cast<F>(-9223372036854775808.0) && x < static_cast<F>(9223372036854775808.0);
 }
 
 template <typename F, size_t N>
@@ -454,6 +456,60 @@ template <typename F>
     fbits_t<F> volatile v = b;
     fbits_t<F> const w    = v;
     return etl::bit_cast<fbits_t<F>>(etl::bit_cast<F>(w));
+}
+
+// ------------------------------------------------------------------ wmemmove: two code paths since fix: 7d6dc8f
+// (constant evaluation: direction found by an equality scan; run time: ps < pd).  Every placement of destination and
+// source inside one 12-element array (all overlaps) and every count, on two rows; and two different arrays.
+constexpr int WMN                   = 12;
+constexpr wchar_t WM_ROWS[2][WMN] = {{1, 2, 3, 4, 5, 6, 7, 8, 9, 10, 11, 12}, {5, 5, 1, 2, 5, 1, 2, 65633, 5, 5, 0, 7}};
+struct WmRes {
+    wchar_t v[WMN];
+};
+constexpr auto wm_one(int row, int d, int s, int n) -> WmRes
+{
+    WmRes r{};
+    for (int i = 0; i < WMN; ++i) { r.v[i] = WM_ROWS[row][i]; }
+    (void)etl::wmemmove(r.v + d, r.v + s, static_cast<etl::size_t>(n));
+    return r;
+}
+constexpr auto wm_two(int row, int d, int s, int n) -> WmRes
+{
+    WmRes r{};
+    wchar_t src[WMN]{};
+    for (int i = 0; i < WMN; ++i) {
+        r.v[i] = static_cast<wchar_t>(100 + i);
+        src[i] = WM_ROWS[row][i];
+    }
+    (void)etl::wmemmove(r.v + d, src + s, static_cast<etl::size_t>(n));
+    return r;
+}
+struct WmAll {
+    WmRes one[2][WMN + 1][WMN + 1][WMN + 1]{};
+    WmRes two[2][WMN + 1][WMN + 1][WMN + 1]{};
+};
+constexpr auto compute_wm()
+{
+    WmAll a{};
+    for (int row = 0; row < 2; ++row) {
+        for (int d = 0; d <= WMN; ++d) {
+            for (int s = 0; s <= WMN; ++s) {
+                for (int n = 0; d + n <= WMN && s + n <= WMN; ++n) {
+                    a.one[row][d][s][n] = wm_one(row, d, s, n);
+                    a.two[row][d][s][n] = wm_two(row, d, s, n);
+                }
+            }
+        }
+    }
+    return a;
+}
+constexpr auto CT_WM = compute_wm();
+[[gnu::noinline]] auto wm_rt(bool two, int row, int d, int s, int n) -> WmRes
+{
+    int volatile vd = d;
+    int volatile vs = s;
+    int volatile vn = n;
+    return two ? wm_two(row, vd, vs, vn) : wm_one(row, vd, vs, vn);
 }
 
 // ------------------------------------------------------------------ single-path samples (observed only)
@@ -1135,6 +1191,31 @@ bool vh::run_case(std::string const& op, Toks& in, Out& impl, Out& ref)
             return true;
         }
         return false;
+    }
+    // ---- wmemmove / wmemmove2 <row> <d> <s> <n> <12 values of the row>
+    if (op == "wmemmove" || op == "wmemmove2") {
+        bool const two = op == "wmemmove2";
+        auto const row = in.num();
+        auto const d   = in.num();
+        auto const s   = in.num();
+        auto const n   = in.num();
+        if (row < 0 || row > 1 || d < 0 || s < 0 || n < 0 || d + n > WMN || s + n > WMN) { return false; }
+        auto const l = in.list();
+        bool ok      = l.size() == static_cast<size_t>(WMN);
+        for (size_t i = 0; ok && i < l.size(); ++i) { ok = static_cast<long long>(WM_ROWS[row][i]) == l[i]; }
+        if (!ok) {
+            impl.tok("table-mismatch");
+            return true;
+        }
+        auto const& c = two ? CT_WM.two[row][d][s][n] : CT_WM.one[row][d][s][n];
+        auto const r  = wm_rt(two, static_cast<int>(row), static_cast<int>(d), static_cast<int>(s), static_cast<int>(n));
+        impl.tok("ok");
+        ref.tok("ok");
+        for (int i = 0; i < WMN; ++i) {
+            impl.num(static_cast<long long>(c.v[i]));
+            ref.num(static_cast<long long>(r.v[i]));
+        }
+        return true;
     }
     // ---- single-path samples
     if (op == "civil") {
